@@ -16,14 +16,22 @@
     (ModHex: total, shape, injective, errors); the PEM bundle loop over an
     abstract block splitter; the DER tag-length-value codec used as the
     reference encoder/parser (round trip with any continuation, trailing data
-    refused).  NOT proved (missing): that yubiattest.ParseCertificate's
-    per-field decoding (asn1.Unmarshal into the certificate structures, name
-    and extension decoding, public-key parsing) agrees with crypto/x509 -- both
-    are standard-library-driven decoders; that part is compared
+    refused); the fields below the envelope as functions of the DER subtrees
+    ([Model/X509Fields.v]: version, serial number as a two's-complement
+    INTEGER of any size, validity in the two Z time forms with the Gregorian
+    calendar proved against day counting for the years 0..9999, issuer and
+    subject attribute lists, the extension list with its optional critical
+    flag, unique identifiers skipped) with their round trips; the harness
+    compares these functions with what yubiattest.ParseCertificate reports on
+    every certificate it generates.  NOT proved (missing): the decoding of the
+    public key itself (RSA modulus / EC point), the per-extension *content*
+    decoding (key usage bits, alternative names, ...), attribute values of
+    string kinds other than UTF8String / PrintableString / IA5String, and
+    time forms outside DER (offsets, missing seconds) -- compared
     implementation-versus-stdlib by the harness (three-way differential with
     the NULL-less re-encoding, trailing data, mutations: no panic). *)
-From Verif Require Import Lib.Base Lib.Bytes Generated.AttestGen Model.Der Model.X509Env Model.ModHex Model.Pem
-     Model.C16Check Proofs.DerProofs Proofs.ModHexProofs Proofs.PemProofs.
+From Verif Require Import Lib.Base Lib.Bytes Generated.AttestGen Model.Der Model.X509Env Model.X509Fields Model.ModHex Model.Pem
+     Model.C16Check Proofs.DerProofs Proofs.X509FieldsProofs Proofs.ModHexProofs Proofs.PemProofs.
 
 (** * DER codec *)
 Theorem c16_der_roundtrip : forall t, wf t = true -> parse (encode t) = Some (t, []).
@@ -189,6 +197,62 @@ Theorem c16_pem_oracle : forall (block : Type) (decode : bytes -> option (block 
 Proof. exact @PemProofs.oracle_model. Qed.
 Print Assumptions c16_pem_oracle.
 
+(** * The fields below the envelope *)
+
+(** INTEGER (serial number, version): every integer of any size has a minimal
+    two's-complement encoding that reads back as itself. *)
+Theorem c16_integer_roundtrip : forall z : Z, int_value (enc_int z) = z /\ int_ok (enc_int z) = true.
+Proof. intro z. exact (conj (int_roundtrip z) (int_minimal z)). Qed.
+Print Assumptions c16_integer_roundtrip.
+
+(** The closed-form day number used for validity agrees with counting the days
+    of the years and months before, for every date of the years 0 .. 9999. *)
+Theorem c16_calendar : forall y m d : Z,
+  (0 <= y <= 9999)%Z -> (1 <= m <= 12)%Z -> days_from_civil y m d = days_naive y m d.
+Proof. exact days_from_civil_calendar. Qed.
+Print Assumptions c16_calendar.
+
+(** UTCTime (years 1950 .. 2049) and GeneralizedTime (years 0 .. 9999) written
+    by a conforming encoder read back as the second they denote. *)
+Theorem c16_utctime_roundtrip : forall y mo d h mi s : Z,
+  (1950 <= y <= 2049)%Z -> (0 <= h)%Z -> (0 <= mi)%Z -> (0 <= s)%Z -> clock_ok y mo d h mi s = true ->
+  parse_utctime (print_utctime y mo d h mi s) = Some (unix_of y mo d h mi s).
+Proof. exact utctime_roundtrip. Qed.
+Print Assumptions c16_utctime_roundtrip.
+
+Theorem c16_gentime_roundtrip : forall y mo d h mi s : Z,
+  (0 <= y <= 9999)%Z -> (0 <= h)%Z -> (0 <= mi)%Z -> (0 <= s)%Z -> clock_ok y mo d h mi s = true ->
+  parse_gentime (print_gentime y mo d h mi s) = Some (unix_of y mo d h mi s).
+Proof. exact gentime_roundtrip. Qed.
+Print Assumptions c16_gentime_roundtrip.
+
+(** Extension list: every list (any identifiers, flags, values) placed in the
+    [3] node reads back in order, unique identifiers before it are skipped;
+    without the node the list is empty. *)
+Theorem c16_extensions_roundtrip : forall l before after,
+  existsb is_ctx3 before = false -> exts_of_tail (before ++ ext_node l :: after) = Some l.
+Proof. exact exts_roundtrip. Qed.
+Print Assumptions c16_extensions_roundtrip.
+
+Theorem c16_extensions_absent : forall tail, existsb is_ctx3 tail = false -> exts_of_tail tail = Some [].
+Proof. exact exts_absent. Qed.
+Print Assumptions c16_extensions_absent.
+
+(** Names: the attributes of all relative names, in order. *)
+Theorem c16_name_roundtrip : forall rdns, dec_name (enc_name rdns) = Some (concat rdns).
+Proof. exact name_roundtrip. Qed.
+Print Assumptions c16_name_roundtrip.
+
+(** All fields of a certificate a conforming encoder writes are read back. *)
+Theorem c16_fields_roundtrip : forall ver serial ta tb nb na issuer subject exts sa oid params bits uids sigalg sig,
+  parse_time ta = Some nb -> parse_time tb = Some na -> existsb is_ctx3 uids = false ->
+  cert_fields (mkEnv (Some (DCons 160 [DPrim 2 (enc_int (ver - 1))])) (DPrim 2 (enc_int serial)) sa
+                     (enc_name issuer) (DCons 48 [ta; tb]) (enc_name subject) oid params bits
+                     (uids ++ [ext_node exts]) sigalg sig)
+  = Some (mkFields ver serial nb na (concat issuer) (concat subject) exts).
+Proof. exact fields_roundtrip. Qed.
+Print Assumptions c16_fields_roundtrip.
+
 (** The proved part of C16 in one statement (see the header for what is missing). *)
 Theorem c16_partial :
   (forall t x, wf t = true -> parse (encode t ++ x) = Some (t, x)) /\
@@ -241,3 +305,18 @@ Example c16_ex_der :
   wf (digest_info [2; 16; 840; 1; 101; 3; 4; 2; 1]%N true (repeat 1%N 32)) = true /\
   parse_exact (encode (digest_info [2; 16; 840; 1; 101; 3; 4; 2; 1]%N true (repeat 1%N 32)) ++ [0%N]) = None.
 Proof. vm_compute. split; reflexivity. Qed.
+
+(** Fields of a concrete certificate: version 3, a 9-octet serial, validity
+    2024-02-29T23:59:59Z .. 2050-01-01T00:00:00Z (UTCTime then GeneralizedTime),
+    a two-attribute issuer, subject unique identifier, two extensions (one critical). *)
+Example c16_ex_fields :
+  cert_fields (mkEnv (Some (DCons 160 [DPrim 2 [2%N]])) (DPrim 2 (enc_int 18446744073709551616%Z))
+                     (DCons 48 []) (enc_name [[([85; 4; 3], 12, tx "CA")]; [([85; 4; 10], 19, tx "Org")]]%N)
+                     (DCons 48 [DPrim 23 (print_utctime 2024 2 29 23 59 59); DPrim 24 (print_gentime 2050 1 1 0 0 0)])
+                     (enc_name []) [42%N] None [0%N]
+                     [DPrim 130 [0; 9]%N; ext_node [([85; 29; 19]%N, true, [48; 0]%N); ([43; 6]%N, false, [])]]
+                     (DCons 48 []) [0%N])
+  = Some (mkFields 3 18446744073709551616 1709251199 2524608000
+                   [([85; 4; 3], 12, tx "CA"); ([85; 4; 10], 19, tx "Org")]%N []
+                   [([85; 29; 19]%N, true, [48; 0]%N); ([43; 6]%N, false, [])]).
+Proof. vm_compute. reflexivity. Qed.
